@@ -1,11 +1,160 @@
-(* C20 — 2-D Bowyer–Watson triangulation.  Statements only; proofs live in Tri/DelaunayProofs.v
-   and Tri/BowyerWatsonProofs.v. *)
-From Coq Require Import List ZArith QArith Bool Arith.
-From PF Require Import Tri.Delaunay Tri.DelaunayProofs.
+(* C20 — 2-D Bowyer–Watson triangulation (modeling/triangulation/bowyer_watson.go).
+   Statements only; proofs live in Tri/DelaunayProofs.v and Tri/BowyerWatsonProofs.v.
+
+   Vocabulary (Tri/Delaunay.v, Tri/BowyerWatson.v):
+     pt = Q*Q, tri = nat*nat*nat (vertex indices), resolve pts t = the three corner points,
+     orient a b c   = (b.X-a.X)*(c.Y-a.Y)-(c.X-a.X)*(b.Y-a.Y)      (Go: CounterClockwise is orient > 0)
+     incircle a b c p = the determinant of Triangle.InsideCircumcircle (Go answers det < 0)
+     bw pts         = the model of bowyerWatson on /repo HEAD (super triangle of fix cb0a07c),
+     bw_pinned pts  = the same with the super triangle of the pinned snapshot,
+     bw_with_sched sched super pts = the same algorithm where the k-th loop over the Go map sees its
+                      content in the order sched k (bw = the identity schedule). *)
+From Coq Require Import List ZArith QArith Bool Arith Permutation Lia.
+From PF Require Import Tri.Delaunay Tri.DelaunayProofs Tri.BowyerWatson Tri.BowyerWatsonProofs.
 Import ListNotations.
 Open Scope Q_scope.
 
+(* ---- 1. the checker that the binding runs on every output of the Go code decides the statement:
+   only input indices /\ all triangles wound the same way with non-zero area /\ open interiors
+   pairwise disjoint /\ no input point strictly inside a circle through the corners of a triangle *)
 Theorem delaunay_checker_sound_complete : forall pts ts,
-  delaunayb pts ts = true <-> delaunay_spec pts ts.
+  delaunayb pts ts = true <->
+  (forall t, In t ts -> idx_ok (length pts) t) /\
+  ((forall t, In t ts -> 0 < gorient (resolve pts t)) \/ (forall t, In t ts -> gorient (resolve pts t) < 0)) /\
+  (forall i j t u, i <> j -> nth_error ts i = Some t -> nth_error ts j = Some u ->
+     forall p, ~ (Inside (resolve pts t) p /\ Inside (resolve pts u) p)) /\
+  (forall t p, In t ts -> In p pts -> ~ InCircum (resolve pts t) p).
 Proof. exact DelaunayProofs.delaunay_checker_sound_complete. Qed.
 Print Assumptions delaunay_checker_sound_complete.
+
+(* ---- 2. vertex identity: every triangle uses three different input indices (no super-triangle
+   vertex survives), and vertex i of the mesh is input point i at (x, 0, y) *)
+Theorem bw_vertex_identity : forall pts ts,
+  bw pts = Some ts ->
+  (forall t, In t ts -> idx_ok (length pts) t /\ distinct3 t) /\
+  length (positions pts) = length pts /\
+  (forall i, (i < length pts)%nat ->
+     nth i (positions pts) (0, 0, 0) = (fst (nth i pts pzero), 0, snd (nth i pts pzero))).
+Proof. exact bw_vertex_identity_proof. Qed.
+Print Assumptions bw_vertex_identity.
+
+(* ---- 3. same winding, positive area: with no three input points on a line every triangle is
+   strictly clockwise (orient < 0) — established by fillHole's fix-up and the super triangle *)
+Theorem bw_same_winding : forall pts ts,
+  general_position pts -> bw pts = Some ts ->
+  forall t, In t ts -> gorient (resolve pts t) < 0.
+Proof. exact bw_same_winding_proof. Qed.
+Print Assumptions bw_same_winding.
+
+(* ---- 4. the Go map's iteration order is irrelevant: under any schedule of the n+1 loops over the
+   map the result holds the same triangles, each exactly once (for any super-triangle construction) *)
+Theorem bw_order_independent : forall sched super pts ts ts',
+  (forall k T, Permutation (sched k T) T) ->
+  bw_with_sched sched super pts = Some ts -> bw_with super pts = Some ts' ->
+  Permutation ts ts'.
+Proof. exact BowyerWatsonProofs.bw_order_independent. Qed.
+Print Assumptions bw_order_independent.
+
+(* hence 2 and 3 hold for every schedule *)
+Theorem bw_sched_winding_identity : forall sched pts ts,
+  (forall k T, Permutation (sched k T) T) -> general_position pts ->
+  bw_with_sched sched super_fixed pts = Some ts ->
+  forall t, In t ts -> idx_ok (length pts) t /\ distinct3 t /\ gorient (resolve pts t) < 0.
+Proof. exact bw_sched_same_winding. Qed.
+Print Assumptions bw_sched_winding_identity.
+
+(* ---- 5. the super triangle of /repo HEAD (sized by max(width, height) of the bounding box) is
+   clockwise and strictly contains every input point, for every input whose points do not all
+   coincide — whatever the scale and offset *)
+Theorem super_contains : forall pts,
+  (exists a b, In a pts /\ In b pts /\ (~ fst a == fst b \/ ~ snd a == snd b)) ->
+  gorient (super_gtri super_fixed pts) < 0 /\
+  forall p, In p pts -> Inside (super_gtri super_fixed pts) p.
+Proof. exact super_contains_proof. Qed.
+Print Assumptions super_contains.
+
+(* the pinned construction (min.Y - 2, apex from the height only) does not: for the unit square
+   scaled by 1/100 the apex lies below every point, no point is inside, the triangulation is empty
+   (the repaired one returns the two triangles) *)
+Theorem super_refuted :
+  general_position tiny_square /\ (3 <= length tiny_square)%nat /\
+  (forall p, In p tiny_square -> snd (snd (fst (super_gtri super_pinned tiny_square))) < snd p) /\
+  (forall p, In p tiny_square -> ~ Inside (super_gtri super_pinned tiny_square) p) /\
+  bw_pinned tiny_square = Some [] /\
+  (exists ts, bw tiny_square = Some ts /\ length ts = 2%nat).
+Proof. exact super_pinned_refuted. Qed.
+Print Assumptions super_refuted.
+
+(* ---- 6. Delaunay.  Full statement (NOT proved):
+
+     Theorem bw_delaunay : forall pts ts,
+       (3 <= length pts)%nat -> general_position pts -> bw pts = Some ts ->
+       delaunay_spec pts ts.
+
+   Proved: (a) one insertion preserves the empty-circumcircle invariant GIVEN that the cavity is
+   strictly star-shaped from the new point and that the triangulation continues behind every
+   boundary edge beyond which an already inserted point lies; (b) hence the whole run returns
+   clockwise triangles with empty circumcircles GIVEN those two facts at every step (cavities_ok).
+   The missing piece is the geometric lemma that the cavity of a point strictly inside the super
+   triangle always has these two properties (and the non-overlap conjunct).  The binding closes
+   the gap per input: cavities_okb — a decision procedure for cavities_ok, item (c) — is evaluated
+   on every model-compared case, and delaunayb on every output of the Go code. *)
+Theorem bw_insert_keeps_empty : forall P T i (old : nat -> Prop),
+  (forall t, In t T -> gorient (resolve P t) < 0) ->
+  (forall t j, In t T -> old j -> in_circb P t (nth j P pzero) = false) ->
+  (forall e, In e (polygon (bad_of P T i)) ->
+     orient (nth (fst e) P pzero) (nth (snd e) P pzero) (nth i P pzero) < 0) ->
+  (forall e j, In e (polygon (bad_of P T i)) -> old j ->
+     0 < orient (nth (fst e) P pzero) (nth (snd e) P pzero) (nth j P pzero) ->
+     exists g, In g T /\ In (snd e, fst e) (edges g)) ->
+  forall t j, In t (insert P T i) -> old j \/ j = i -> in_circb P t (nth j P pzero) = false.
+Proof. exact insert_keeps_empty. Qed.
+Print Assumptions bw_insert_keeps_empty.
+
+Theorem bw_delaunay_partial : forall super pts ts,
+  gorient (super_gtri super pts) < 0 ->
+  cavities_ok super pts ->
+  bw_with super pts = Some ts ->
+  (forall t, In t ts -> idx_ok (length pts) t /\ gorient (resolve pts t) < 0) /\
+  (forall t p, In t ts -> In p pts -> ~ InCircum (resolve pts t) p).
+Proof. exact bw_delaunay_conditional. Qed.
+Print Assumptions bw_delaunay_partial.
+
+Theorem cavities_decidable : forall super pts, cavities_okb super pts = true -> cavities_ok super pts.
+Proof. exact cavities_okb_ok. Qed.
+Print Assumptions cavities_decidable.
+
+(* ---- 7. "triangulation OF THE INPUT" is not always met (known finding
+   triangulation:finite-super-triangle-drops-hull-triangles): on these six points in general position
+   the run meets every hypothesis above and its six triangles satisfy the four conjuncts, but the
+   hull triangle (1,0,2) — whose circumcircle contains a super-triangle vertex — is missing:
+   adding it keeps the four conjuncts true and only then do the areas add up to the hull area *)
+Definition six_points : list pt := [(88, 21); (11, 80); (43, 55); (41, 53); (31, 17); (31, 18)].
+Theorem bw_coverage_refuted :
+  general_position six_points /\ cavities_ok super_fixed six_points /\
+  exists ts, bw six_points = Some ts /\ length ts = 6%nat /\
+    delaunayb six_points ts = true /\ coverb six_points ts = false /\
+    ~ In (1, 0, 2)%nat ts /\
+    delaunayb six_points ((1, 0, 2)%nat :: ts) = true /\ coverb six_points ((1, 0, 2)%nat :: ts) = true.
+Proof.
+  split; [apply general_positionb_ok; vm_compute; reflexivity|].
+  split; [apply cavities_okb_ok; vm_compute; reflexivity|].
+  eexists. split; [vm_compute; reflexivity|].
+  split; [reflexivity|]. split; [vm_compute; reflexivity|]. split; [vm_compute; reflexivity|].
+  split; [|split; vm_compute; reflexivity].
+  simpl. intros H. repeat (destruct H as [H|H]; [discriminate H|]). exact H.
+Qed.
+Print Assumptions bw_coverage_refuted.
+
+(* ---- non-vacuity: the hypotheses of 3, 5 and 6 are met by a concrete input and the conclusions
+   are what the checker sees *)
+Example c20_example :
+  (3 <= length six_points)%nat /\ general_position six_points /\
+  gorient (super_gtri super_fixed six_points) < 0 /\ cavities_ok super_fixed six_points /\
+  option_map (delaunayb six_points) (bw six_points) = Some true /\
+  option_map (@length tri) (bw_with_sched (fun _ T => rev T) super_fixed six_points) = Some 6%nat.
+Proof.
+  split; [simpl; lia|]. split; [apply general_positionb_ok; vm_compute; reflexivity|].
+  split; [vm_compute; reflexivity|]. split; [apply cavities_okb_ok; vm_compute; reflexivity|].
+  split; vm_compute; reflexivity.
+Qed.
